@@ -273,6 +273,42 @@ fn conv_job(conv: Conv, len: usize) -> Job {
   })
 }
 
+/// complete_status() with an operator below it that ends the stream early: the
+/// status follows the *source*. A cold source pushes its terminal also to an
+/// observer whose downstream has finished; the status must record it
+/// ("reports completed or error exactly when the source has terminated").
+fn status_cut_job(src: crate::ast::Src, cut: usize) -> Job {
+  use crate::ast::*;
+  use crate::drive::*;
+  let pipe = Pipe::S(src.clone());
+  Job::new(format!("{}.complete_status().take({cut})", pipe.show()), move |_ch, obs| {
+    let r = Run::prepare(1, Form::Local);
+    let (o, st) = build_local(&pipe, &r.cx).complete_status();
+    let _u = o.take(cut).actual_subscribe(r.probe.clone());
+    obs.checks += 1;
+    if let Some(exp) = crate::model::src(&src) {
+      let (closed, completed, failed) = (st.is_closed(), st.is_completed(), st.error_occur());
+      let want = match exp.t {
+        T::C => (true, true, false),
+        T::Err(_) => (true, false, true),
+        T::Open => (false, false, false),
+      };
+      if (closed, completed, failed) != want {
+        obs.fail(
+          "c14:status-not-following-the-source:Status",
+          format!(
+            "{}.complete_status().take({cut}): the source delivers [{}]; is_closed()={closed} is_completed()={completed} error_occur()={failed}",
+            pipe.show(),
+            fmt_notes(&exp.notes())
+          ),
+        );
+      }
+    }
+    obs.delivered = r.probe.len() as u64 + 1;
+    obs.note_outcome(&r.probe.notes());
+  })
+}
+
 pub fn plan(tier: Tier) -> Plan {
   let len = match tier {
     Tier::Quick => 8,
@@ -286,13 +322,29 @@ pub fn plan(tier: Tier) -> Plan {
       }
     }
   }
+  {
+    use crate::ast::{NoteSpec::*, Src};
+    for src in [
+      Src::Iter(vec![0, 1, 2]),
+      Src::Of(1),
+      Src::Create(vec![N(0), N(1), C]),
+      Src::Create(vec![N(0), N(1), Err(E::E1)]),
+      Src::Create(vec![N(0), C]),
+      Src::Empty,
+      Src::Throw(E::E1),
+    ] {
+      for cut in [0usize, 1, 2] {
+        jobs.push(status_cut_job(src.clone(), cut));
+      }
+    }
+  }
   Plan {
     jobs,
     finish: Finish {
       prop: "C14".into(),
       tier: tier_name(tier),
       engine: "E1 opseq".into(),
-      rule: "to_future(), collect().to_future(), to_stream(), complete_status() over a hot source: every sequence up to the length bound over {next(0), next(1), complete, error, poll} (polls before, between and after the source events, events after the terminal included) with a counting waker; oracle at every poll: documented result, Pending only while the source is open, Ready once it has terminated (stream: all items, the error, then None), a registered waker is woken by the terminal, status flags flip exactly at the terminal and wait_for_end returns; non-trivial = the source emitted something".into(),
+      rule: "to_future(), collect().to_future(), to_stream(), complete_status() over a hot source: every sequence up to the length bound over {next(0), next(1), complete, error, poll} (polls before, between and after the source events, events after the terminal included) with a counting waker; oracle at every poll: documented result, Pending only while the source is open, Ready once it has terminated (stream: all items, the error, then None), a registered waker is woken by the terminal, status flags flip exactly at the terminal and wait_for_end returns; complete_status() over cold sources with take(0|1|2) below it: the status follows the source's terminal although downstream has finished; non-trivial = the source emitted something".into(),
       bounds: json!({"sequence_len": len}),
       assumptions: vec!["to_future on `item(s) then error`: Ok(Err(e)) or Err(MultipleValues) are both accepted".into()],
     },
